@@ -4,6 +4,26 @@ import json, subprocess
 BASE = json.load(open('/root/.vp/BASELINE.json'))
 ENV = "env -u GOWORK GOFLAGS=-mod=mod GOPROXY=off GOSUMDB=off GOTOOLCHAIN=local"
 CLAIMED = {
+ "C01": dict(
+   technique="static analysis: SSA provenance/dominance rules over the interpreter loop (Run, applyOp, gather, bind), registry freshness, taint rule on output names, global-state effect rule",
+   text="The interpreter is the same code for every graph, so the property's program quantifier is discharged on the interpreter's own paths: a fresh operator is resolved per node from that node's op_type (M4) by a registry whose constructors return new values (R2); Init -> gather -> ValidateInputs -> Apply -> bind happen in that order with each stage consuming the previous stage's result and every error returned (M5); gather appends exactly one element per input name, nil for the empty name, an error for an unknown name (M6); results are bound by position under a rejecting length check (M7); caller inputs win over initializers (M3); every declared output is non-nil or Run fails (M8); operators never read output names (R4); no package state is written (R1). Tests run four fixed graphs once each and cannot vary graphs.",
+   note="Level 'other': necessary conditions on the interpreter. Not decided: that each operator computes the right value (C03-C11), numeric equality with an independent evaluator. Rules recognise the present factoring by role; a re-architecture makes them undecided (exit 2), never pass.",
+   ref="DESIGN.md §4 R5 R2 R4 R1; §5 C01"),
+ "C12": dict(
+   technique="static analysis: exhaustive decoder table evaluation (data_type -> decoder -> element type -> typed field -> byte widths) plus dominance check of the count/dims gate",
+   text="The 11 supported element types x 2 encodings are a finite table read off the code: D1 each data_type case calls a decoder of exactly that Go element type; D2 each decoder reads the typed field ONNX prescribes (guarded by that same field being populated) else the raw reader of the same element type; D3 each raw reader's buffer length, compared length and decode width all equal sizeof(element); D4/D6 a short tail cannot be loaded as zeros because a rejecting gate compares the number of decoded elements with the product of the dims and bounds every dim from below before tensor construction; D5 only explicitly supported data_type cases reach tensor construction. With D1-D3 a well-formed payload is reinterpreted (bit exact); with D4-D6 a malformed one ends in an error.",
+   note="Level 'other', exhaustive for D1-D3. Trusted: encoding/binary, bytes.Reader, gorgonia's tensor.New when its preconditions hold. One known finding (data_type UNDEFINED falls back on populated typed fields; pinned by TestConstantOfShape). Not decided: narrowing of out-of-range values in widened typed fields of ill-formed files.",
+   ref="DESIGN.md §4 R13; §5 C12"),
+ "C13": dict(
+   technique="static analysis: CFG/dominance rules over the shape validator (loop exits, comparison operands, rejecting edges), must-be-first rule in Run, effect analysis of the validator, call-graph source agreement of introspection methods",
+   text="The statement is structural: Run accepts exactly the declared signature. The validator's SSA form is checked for: iteration over the declared input shapes (V1); an iteration ends early only for an initializer name, a dimension is passed only when dynamic or equal (V2); missing input => error (V3); rank inequality => error before any extent is read (V4); declared[i].Size compared with received[i] at the same i for every i, mismatch => error, only for non-dynamic dims (V5); the validator is the first call of Run on Run's own inputs and everything else lies on its nil edge (M1); nothing reachable from it mutates a tensor (R3); IsDynamic <=> dim_value == 0 (V7); InputShapes/InputDimSize/validator all derive shapes from the graph's declared inputs (V8).",
+   note="Level 'other'. The rules recognise the validator by role (first callee of Run receiving Run's parameter and returning error). Inputs declared without shape information are not checked by the library at all (outside the quantifier).",
+   ref="DESIGN.md §4 R17 R5.M1 R3; §5 C13"),
+ "C18": dict(
+   technique="static analysis: enumeration and discharge of every potentially panicking instruction reachable from the Model constructors (call graph + dominance + structural bounds idioms + contracts), plus opset/operator refusal rules",
+   text="After proto.Unmarshal the only code that sees untrusted data is the load path L (constructors, Params, TensorFromProto, typed getters, raw readers, narrowing helpers, checkDims). Every instruction in L that can panic - explicit panic, unchecked type assertion, integer division, make with a computed size, index/slice expressions, field reads through possibly-nil pointers, map stores, dynamic calls, tensor.New, binary.UintN, reflect.Value.Len - is enumerated and must be discharged by a dominating guard, a structural idiom (range index over a slice of the same length, constant index into a constant-size buffer) or a contract-gated precondition (tensor.New by the count/dims gate). The opset id is the running maximum over all imports, the resolver's miss returns ErrUnsupportedOpsetVersion, an unknown operator's error is returned by Run and no node is skipped, the getter's miss wraps ErrUnsupportedOperator.",
+   note="Level 'other'. Trusted never to panic: proto.Unmarshal, os/io/zip readers, bytes.Reader, encoding/binary with a long-enough buffer, gorgonia's tensor.New when dims >= 1 and count == product. Generated getters are checked structurally (dereference only under x != nil).",
+   ref="DESIGN.md §4 R15 R13 R5 R2; §5 C18"),
  "C02": dict(
    technique="static analysis: interprocedural origin/effect (ownership) analysis over go/ssa with a closed contract table for gorgonia",
    text="Every instruction of the library that writes storage (contract-declared mutators such as Reshape/SetAt/Zero/T and WithReuse/UseUnsafe options, element stores through Shape()/Data() slices, append/copy/sort, map updates, field stores) is enumerated, and an interprocedural origin analysis decides for each whether the written storage can originate from a caller tensor, a model weight, the protobuf or a package variable; package-level state must not be written outside initialisers. History can only travel through such state, so closing every write closes every history. Tests cannot see this because they never call Run twice or look at an input after the call.",
